@@ -99,7 +99,7 @@ def shrink(case, fails):
     return {"cfg": case["cfg"], "ops": ops}
 
 
-def run(prop, theorems, tier, replay=None, extra_gen=None, known_classifier=None, rule_note="", link=()):
+def run(prop, theorems, tier, replay=None, extra_gen=None, known_classifier=None, rule_note="", link=(), extra_stage=None):
     thorough = tier == "thorough"
     r = Rng(seed())
     kinds, mk, cl, tags = SPEC[prop]
@@ -271,7 +271,9 @@ def run(prop, theorems, tier, replay=None, extra_gen=None, known_classifier=None
         with open(replay) as f:
             rj = json.load(f)
         rc = rj.get("cases", [])
-        search([c for c in rc if "kind" not in c and "calls" not in c], "r")
+        search([c for c in rc if "kind" not in c and "calls" not in c and "ops" in c and "cfg" in c], "r")
+        if extra_stage and any("ops" not in c for c in rc):
+            extra_stage(thorough, violations, link_stats)      # (a boot / contention witness is re-run, not replayed)
         link_search([c for c in rc if "kind" in c], [c for c in rc if "calls" in c], "r")
     else:
         corpus = load_corpus(prop)
@@ -282,6 +284,8 @@ def run(prop, theorems, tier, replay=None, extra_gen=None, known_classifier=None
             import linklib as ll
             link_search(ll.gen_link_histories(r, 1500 if thorough else 150) if "link" in link else [],
                         ll.gen_client_cases(r, 600 if thorough else 60) if "client" in link else [], "q")
+        if extra_stage:
+            extra_stage(thorough, violations, link_stats)
         if (broken or disagreements) and not violations:
             log("proof/correspondence broken; extended search", (broken or [""])[0][:300])
             more = gen_histories(Rng(seed() + 7919), 300, prop, 10, 40)
